@@ -1,22 +1,26 @@
 /* C10 (E1 part) --- thread-specific values follow the thread across workers and stay private to (thread, key). */
 #include "hcommon.h"
-typedef struct { int n, y, conc_create, W, K; } prog_t;
+typedef struct { int n, y, conc_create, W, K, wave2; } prog_t;
 #define MAXP 64
 static prog_t P[2][MAXP]; static int NP[2];
-static void add(int tier, int n, int y, int cc, int W, int K) { if (NP[tier] < MAXP) { prog_t * p = &P[tier][NP[tier]++]; p->n = n; p->y = y; p->conc_create = cc; p->W = W; p->K = K; } }
+static void add(int tier, int n, int y, int cc, int W, int K) { if (NP[tier] < MAXP) { prog_t * p = &P[tier][NP[tier]++]; p->n = n; p->y = y; p->conc_create = cc; p->W = W; p->K = K; p->wave2 = 0; } }
 static void build(void) {
   static int built; if (built) return; built = 1;
   for (int tier = 0; tier < 2; tier++) for (int W = 1; W <= (tier ? 3 : 2); W++) {
     int K = tier ? 3 : 2; if (W == 3) K = 2;
     add(tier, 2, 1, 0, W, K); add(tier, 2, 2, 0, W, 2); add(tier, 3, 1, 0, W, tier ? 2 : 1); add(tier, 2, 1, 1, W, K); add(tier, 3, 1, 1, W, tier ? 2 : 1);
+    /* a second wave of threads on the recycled records of the first, started in every creation order: they start with no values */
+    add(tier, 2, 1, 0, W, tier ? 2 : 1); P[tier][NP[tier] - 1].wave2 = 1;
+    if (tier) { add(tier, 3, 0, 0, W, 1); P[tier][NP[tier] - 1].wave2 = 1; }
   }
 }
 static int nprogs(int tier) { build(); return NP[tier]; }
 static void config(int tier, int prog, int * W, int * K) { build(); *W = P[tier][prog].W; *K = P[tier][prog].K; }
-static void describe(int tier, int prog, char * b, size_t n) { build(); prog_t * p = &P[tier][prog]; snprintf(b, n, "%d threads set/get the same key with %d yields in between%s", p->n, p->y, p->conc_create ? ", each also creating/deleting keys concurrently" : ""); }
+static void describe(int tier, int prog, char * b, size_t n) { build(); prog_t * p = &P[tier][prog]; snprintf(b, n, "%d threads set/get the same key with %d yields in between%s", p->n, p->y, p->conc_create ? ", each also creating/deleting keys concurrently" : p->wave2 ? "; then a second wave (default, parent-first, attr=NULL) on the recycled records reads before it stores" : ""); }
 static prog_t * cur; static myth_key_t key, key2, key3; static volatile int own_keys[4], k3_wrong, k3_calls;
 /* key3 has a destructor; what the ending thread stored under the other (destructor-less, lower-numbered) keys is still readable in it */
-static void k3_dtor(void * v) { long i = (long)v - 0x400; k3_calls++; if (i < 0 || i > 3) { k3_wrong++; return; }
+static void k3_dtor(void * v) { if (!v) return;   /* native keys: the destructor also runs for a thread that stored nothing under the key (C11's subject, not counted here) */
+  long i = (long)v - 0x400; k3_calls++; if (i < 0 || i > 3) { k3_wrong++; return; }
   if (myth_getspecific(key2) != (void *)(0x200 + i)) k3_wrong++; if (myth_getspecific(key) != (i ? (void *)(0x100 + i) : NULL)) k3_wrong++; }
 static void * body(void * a) {
   long i = (long)a;
@@ -42,6 +46,16 @@ static void * body(void * a) {
   MV_CHECK(myth_getspecific(key2) == (void *)(0x200 + i), "thread %ld reads %p under the second key", i, myth_getspecific(key2));
   return 0;
 }
+/* second wave: a new thread, whatever record it is built on and however it is started, has no value under any key */
+static void * body2(void * a) {
+  long i = (long)a;
+  void * v1 = myth_getspecific(key), * v2 = myth_getspecific(key2), * v3 = myth_getspecific(key3);
+  MV_CHECK(v1 == NULL && v2 == NULL && v3 == NULL, "a new thread (second wave, #%ld) that never stored a value reads %p / %p / %p under the three keys: values of an earlier thread", i, v1, v2, v3);
+  myth_setspecific(key2, (void *)(0x500 + i));
+  myth_yield();
+  MV_CHECK(myth_getspecific(key2) == (void *)(0x500 + i) && myth_getspecific(key) == NULL, "second-wave thread %ld reads %p / %p", i, myth_getspecific(key2), myth_getspecific(key));
+  return 0;
+}
 static void run(int tier, int prog) {
   build(); cur = &P[tier][prog];
   mv_start(cur->W);
@@ -51,6 +65,11 @@ static void run(int tier, int prog) {
   myth_thread_t th[4];
   for (long i = 0; i < cur->n; i++) th[i] = myth_create(body, (void *)i);
   for (int i = 0; i < cur->n; i++) myth_join(th[i], 0);
+  if (cur->wave2) {
+    static const int v2[3] = { V_EX_PARENT_FIRST, V_CREATE, V_EX_NULLATTR };
+    for (long i = 0; i < cur->n; i++) MV_CHECK(h_spawn(v2[i % 3], &th[i], body2, (void *)i) == 0, "creation of a second-wave thread failed");
+    for (int i = 0; i < cur->n; i++) myth_join(th[i], 0);
+  }
   MV_CHECK(myth_getspecific(key) == (void *)0x999, "main's value was changed by other threads' stores");
   MV_CHECK(k3_calls == cur->n && k3_wrong == 0, "the destructor of the third key ran %d time(s) for %d threads; in %d of its look-ups the ending thread's values under the other keys were gone or changed", k3_calls, cur->n, k3_wrong);
   MV_CHECK(myth_setspecific(1024, (void *)1) == EINVAL && myth_getspecific(-1) == NULL, "out-of-range key not rejected");
